@@ -15,9 +15,9 @@ from tools import vlib
 from tools.vlib import Outcome, sx
 
 MANIFEST = {
-    "level_text": "Coq theorems (Properties/C04.v, no axioms) about a Gallina transcription of is_tauri_parameter_type, channel extraction (incl. the repaired ipc::Channel and Request<'_>), Option detection, compute_parameter_name over serde-rename-rule's apply_to_field behind the call-site guard of apply_naming_convention, and the five template shapes that decide the second argument of invoke, for every project (files of commands and helper functions with arbitrary name overlap), every parameter list, every name over [a-z0-9_], all eight configured cases and both modes: generation never panics; every command gets exactly its own keys (C04_project_keys), after every run of every history of runs (C04_history_keys); outside three narrow recorded classes the (key, omittable) pairs reaching invoke are a permutation of Tauri's (one per non-injected parameter incl. channels, named by heck's lowerCamelCase / snake_case rule or the configured serde rule, omittable iff Option), Zod mode validates exactly the value keys and re-attaches exactly the channel keys, both modes deliver the same entries (unconditionally), and the guarded camelCase equals Tauri's word rule. Tied to /repo on every run: both generators run on generated commands, the written files are read back by the extracted observation and compared with the model and the spec.",
+    "level_text": "Coq theorems (Properties/C04.v, no axioms) about a Gallina transcription of is_tauri_parameter_type, channel extraction (incl. the repaired ipc::Channel and Request<'_>), Option detection, compute_parameter_name over serde-rename-rule's apply_to_field behind the call-site guard of apply_naming_convention, and the five template shapes that decide the second argument of invoke, for every project (files of commands and helper functions with arbitrary name overlap), every parameter list, every name over [a-z0-9_], all eight configured cases and both modes: generation never panics; every command gets exactly its own keys (C04_project_keys), after every run of every history of runs (C04_history_keys); outside four narrow recorded classes the (key, omittable) pairs reaching invoke are a permutation of Tauri's (one per non-injected parameter incl. channels, named by heck's lowerCamelCase / snake_case rule or the configured serde rule, omittable iff Option), Zod mode validates exactly the value keys and re-attaches exactly the channel keys, both modes deliver the same entries (unconditionally), and the guarded camelCase equals Tauri's word rule. Tied to /repo on every run: both generators run on generated commands, the written files are read back by the extracted observation and compared with the model and the spec.",
     "design_ref": "DESIGN.md section 5 C04, section 11 camel_agrees",
-    "level_note": "The model represents the generated module by what the key set depends on (schema keys, Params declaration, call-site shape), not by its text; the reading of the real files (Spec/C04Obs.v, token level, tolerant of non-identifier keys) is trusted, not proved against a TypeScript grammar. Commands carrying #[serde(..)] attributes on the function or its parameters (a mechanism of the tool, rejected by rustc/Tauri) are outside the model. Three known classes are premises of C04_keys/C04_optional (bare Window, rename_all in the command attribute, underscore-only names under camelCase); C04-2 (ipc::Channel), C04-3 (Request<'_> / ipc::Request<'_>) and C04-5 (panic on underscore-only names) are repaired and their witnesses are regression cases. A Request that is neither fully qualified nor written with its lifetime is outside the domain (indistinguishable from a user type).",
+    "level_note": "The model represents the generated module by what the key set depends on (schema keys, Params declaration, call-site shape), not by its text; the reading of the real files (Spec/C04Obs.v, token level, tolerant of non-identifier keys) is trusted, not proved against a TypeScript grammar. Commands carrying #[serde(..)] attributes on the function or its parameters (a mechanism of the tool, rejected by rustc/Tauri) are outside the model. Four known classes are premises of C04_keys/C04_optional (bare Window, rename_all in the command attribute, underscore-only names under camelCase, keyed parameters bound by a wildcard or destructuring pattern); C04-2 (ipc::Channel), C04-3 (Request<'_> / ipc::Request<'_>) and C04-5 (panic on underscore-only names) are repaired and their witnesses are regression cases. A Request that is neither fully qualified nor written with its lifetime is outside the domain (indistinguishable from a user type).",
     "technique": "Rocq/Coq proof over hand-written model + correspondence check (extracted OCaml vs Rust harness and real CLI)"
 }
 
@@ -32,7 +32,8 @@ RULE = ("single-command cases: 0-6 parameters mixing value types, every listed s
         "parameter cases x {CLI -c file, CLI with tauri.conf.json discovered in ./, ./src-tauri/, ../, library from_tauri_config, build-script entry "
         "point with tauri.conf.json, with typegen.json}, both modes. Run histories: 2-4 runs into one output directory (unforced / --force / \"force\": true, "
         "returning to an earlier state; states differ in parameter case, a renamed parameter, channels, an injected type; CLI -c, CLI with discovered "
-        "tauri.conf.json, build-script with tauri.conf.json / typegen.json), judged after every run")
+        "tauri.conf.json, build-script with tauri.conf.json / typegen.json), judged after every run; the same on one long-lived generator object (and analyzer) through generate_models. Parameter bindings: plain, "
+        "r#, mut, ref, ref mut, wildcard, struct and tuple-struct patterns at every position relative to value / channel / injected parameters")
 TRUSTED = ["Spec/C04Obs.v: token-level reading of types.ts/commands.ts (Params declaration, z.object keys, the invoke argument) - a model of TypeScript, not proved",
            "Spec/C04TauriCase.v: Tauri's argument naming and the list of injected types, transcribed from the property text and tauri-macros; lowerCamelCase and snake_case cross-checked against heck 0.5 on every generated name",
            "python printer of the Rust source; its type abstraction is cross-checked against syn on every case"]
@@ -40,8 +41,8 @@ ASSUMPTIONS = ["z.object(..).safeParse strips keys that are not in the schema (Z
                "a key of the Params type is omittable by the caller iff it is declared with ? (interface) or its schema ends in .optional() (z.infer)"]
 
 CASES8 = ["lowercase", "UPPERCASE", "PascalCase", "camelCase", "snake_case", "SCREAMING_SNAKE_CASE", "kebab-case", "SCREAMING-KEBAB-CASE"]
-KF_IDS = ["C04-1", "C04-4", "C04-6"]                              # order of ExC04.c04_classes
-KF_PRIORITY = [2, 1, 0]                                            # underscore-only name first, then macro case, ...
+KF_IDS = ["C04-1", "C04-4", "C04-6", "C04-7"]                     # order of ExC04.c04_classes
+KF_PRIORITY = [3, 2, 1, 0]                                         # underscore-only name first, then macro case, ...
 KEYWORDS = {"as", "do", "fn", "if", "in", "mod", "mut", "pub", "ref", "use", "box", "dyn", "for", "let", "try", "type", "self",
             "impl", "loop", "move", "enum", "else", "true", "false", "super", "crate", "async", "await", "const", "match", "priv",
             "static", "struct", "trait", "unsafe", "where", "while", "yield", "final", "macro", "break", "return", "extern",
@@ -172,10 +173,22 @@ def random_case(rng, kf_class=None):
             macro = "snake_case"
     cname = gen_name(rng, set(p[0] for p in params))
     c = mk_case(cname, params, macro, default_case, rng.choice(["tauri::command", "tauri::command", "command"]))
+    # bindings other than a bare identifier that Tauri treats alike: mut / ref, and the wildcard on an injected parameter
+    for p in c["params"]:
+        r = rng.random()
+        if r < 0.06 and set(p["name"]) != {"_"}:
+            p["mods"] = rng.choice(["mut ", "ref ", "ref mut "])
+        elif r < 0.14 and any(p["ty"] == t[0] for t in INJECTED_TYPES):
+            p["pat"] = "wild"
+            p["name"] = "w"
+    if kf_class == 3:
+        c["params"].insert(rng.randint(0, len(c["params"])), pat_param(rng.choice(PAT_KINDS_KF)))
     # raw identifiers: a keyword as the name of a keyed or injected parameter, or r# in front of an ordinary name
     if c["params"] and rng.random() < 0.12:
-        p = rng.choice(c["params"])
-        if rng.random() < 0.6:
+        p = rng.choice([q for q in c["params"] if q.get("pat", "ident") == "ident"] or c["params"])
+        if p.get("pat", "ident") != "ident":
+            pass
+        elif rng.random() < 0.6:
             kw = rng.choice(RAW_KEYWORDS)
             if all(q["name"] != kw for q in c["params"]) and set(p["name"]) != {"_"}:
                 p["name"] = kw
@@ -338,6 +351,68 @@ def all_fns(proj):
     return [f for fl in sorted(proj["files"], key=lambda x: x["path"]) for f in fl["fns"]]
 
 
+def render_binding(p):
+    """how the parameter is bound: plain identifier (r#, mut, ref), wildcard, or a destructuring pattern"""
+    pat = p.get("pat", "ident")
+    if pat == "wild":
+        return "_"
+    if pat == "destructure":
+        return p["bind"]
+    return "%s%s%s" % (p.get("mods", ""), "r#" if p.get("raw") else "", p["name"])
+
+
+def pat_param(kind):
+    """parameters that are not bound by a plain identifier; kind -> param dict (name is what the model carries)"""
+    if kind == "wild-injected":
+        t = INJECTED_TYPES[0]
+        return {"name": "w", "ty": t[0], "abs": t[1], "pat": "wild"}
+    if kind == "wild-state":
+        t = INJECTED_TYPES[4]
+        return {"name": "w", "ty": t[0], "abs": t[1], "pat": "wild"}
+    if kind == "wild-value":
+        return {"name": "w", "ty": "String", "abs": P(["String"]), "pat": "wild"}
+    if kind == "wild-channel":
+        return {"name": "w", "ty": "Channel<String>", "abs": P(["Channel"], ["T"]), "pat": "wild"}
+    if kind == "struct-pattern":
+        return {"name": "item", "ty": "Item", "abs": P(["Item"]), "pat": "destructure", "bind": "Item { id, label }", "heck_src": "Item"}
+    if kind == "tuple-struct-pattern":
+        return {"name": "wrapper", "ty": "Wrapper", "abs": P(["Wrapper"]), "pat": "destructure", "bind": "Wrapper(inner)", "heck_src": "Wrapper"}
+    if kind == "mut-value":
+        return {"name": "buf_size", "ty": "i32", "abs": P(["i32"]), "mods": "mut "}
+    if kind == "mut-channel":
+        return {"name": "on_tick", "ty": "Channel<i32>", "abs": P(["Channel"], ["T"]), "mods": "mut "}
+    if kind == "ref-value":
+        return {"name": "file_name", "ty": "String", "abs": P(["String"]), "mods": "ref "}
+    if kind == "ref-mut-option":
+        return {"name": "maybe_x", "ty": "Option<String>", "abs": P(["Option"], ["T"]), "mods": "ref mut "}
+    raise KeyError(kind)
+
+
+PAT_KINDS_OK = ["wild-injected", "wild-state", "mut-value", "mut-channel", "ref-value", "ref-mut-option"]
+PAT_KINDS_KF = ["wild-value", "wild-channel", "struct-pattern", "tuple-struct-pattern"]
+
+
+def pattern_matrix():
+    """every kind of binding at every position relative to a value, a channel and an injected parameter"""
+    S, C, I = VALUE_TYPES[0], CHANNEL_TYPES[0], INJECTED_TYPES[8]
+    others = [{"name": "user_id", "ty": S[0], "abs": S[1]}, {"name": "on_event", "ty": C[0], "abs": C[1]},
+              {"name": "win", "ty": I[0], "abs": I[1]}]
+    cases = []
+    for kind in PAT_KINDS_OK + PAT_KINDS_KF:
+        for pos in range(4):
+            for rot in range(3):
+                rest = [dict(o) for o in (others[rot:] + others[:rot])]
+                ps = rest[:pos] + [pat_param(kind)] + rest[pos:]
+                for dc in (None, "snake_case"):
+                    if dc and (pos + rot) % 2:
+                        continue
+                    cases.append({"name": "pat_cmd", "macro": None, "attr": "tauri::command", "default_case": dc, "params": ps})
+        # two of them in one signature
+        cases.append({"name": "pat_cmd", "macro": None, "attr": "command", "default_case": None,
+                      "params": [pat_param("wild-injected"), pat_param(kind), dict(others[1]), pat_param("wild-state"), dict(others[0])]})
+    return cases
+
+
 def render_fn(f):
     uses_r = any("<R>" in p["ty"] for p in f["params"])
     uses_a = any("'a" in p["ty"] for p in f["params"])
@@ -349,12 +424,12 @@ def render_fn(f):
             attr += '(rename_all = "%s")' % f["macro"]
         head = "#[%s]\n" % attr
     # a raw identifier r#name is the parameter called name (repair C01-raw-ident-strip; tauri-macros unraws as well)
-    ps = ", ".join("%s%s: %s" % ("r#" if p.get("raw") else "", p["name"], p["ty"]) for p in f["params"])
+    ps = ", ".join("%s: %s" % (render_binding(p), p["ty"]) for p in f["params"])
     return "%spub async fn %s%s(%s) {\n}\n" % (head, f["name"], ("<" + gens + ">") if gens else "", ps)
 
 
 MODELS_RS = ("use serde::{Deserialize, Serialize};\n\n#[derive(Debug, Serialize, Deserialize)]\npub struct Item {\n"
-             "    pub id: i32,\n    pub label: String,\n}\n")
+             "    pub id: i32,\n    pub label: String,\n}\n\n#[derive(Debug, Serialize, Deserialize)]\npub struct Wrapper(pub i32);\n")
 
 
 def render_files(case):
@@ -385,7 +460,7 @@ def case_sexp(case, impl):
     proj = to_project(case)
     dc = proj["default_case"] if proj["default_case"] is not None else "camelCase"   # config.rs default
     files = [[[f["name"], bool(f["command"]), [f["macro"]] if f.get("macro") else None,
-               [[p["name"], ty(p["abs"])] for p in f["params"]]] for f in fl["fns"]]
+               [[p["name"], ty(p["abs"]), p.get("pat", "ident")] for p in f["params"]]] for f in fl["fns"]]
              for fl in sorted(proj["files"], key=lambda x: x["path"])]
     return sx([dc, files, side(impl["plain"]), side(impl["zod"])])
 
@@ -411,7 +486,7 @@ def impl_harness(cases):
     scratch = os.path.join(vlib.RUST_OUT, "sandbox", "c04")
     os.makedirs(scratch, exist_ok=True)
     payload = [{"id": c["id"], "scratch": scratch, "files": render_files(c), "default_case": to_project(c)["default_case"],
-                "params": [{"name": p["name"], "ty": p["ty"]} for f in all_fns(to_project(c)) for p in f["params"]]} for c in cases]
+                "params": [{"name": p["name"], "ty": p["ty"], "heck_src": p.get("heck_src")} for f in all_fns(to_project(c)) for p in f["params"]]} for c in cases]
     return vlib.run_harness("c04-gen", payload, per_case_timeout=60)
 
 
@@ -567,7 +642,8 @@ def judge(cases, obs, via, in_domain=True):
         if o.get("heck"):
             ps = [p for f in all_fns(to_project(c)) for p in f["params"]]
             for p, h in zip(ps, o["heck"]):
-                heck[p["name"]] = h
+                if p.get("pat", "ident") != "wild":
+                    heck[p["name"]] = h
     if heck and in_domain:
         ns = sorted(heck)
         for n, r in zip(ns, vlib.run_runner("c04-camel", [sx(n) for n in ns])):
@@ -628,6 +704,7 @@ def judge(cases, obs, via, in_domain=True):
 
 # ---- multi-run histories into one output directory ----
 HIST_ROUTES = ["cli-c", "cli-cwd", "build-tauri", "build-typegen"]
+REUSE_ROUTES = ["lib-reuse-generator", "lib-reuse-generator-and-analyzer"]     # one long-lived generator object (watch mode)
 
 
 def impl_history(hists):
@@ -646,6 +723,21 @@ def impl_history(hists):
     def one(h):
         route = h["route"]
         steps = [{"plain": None, "zod": None, "log": {}} for _ in h["history"]]
+        if route in REUSE_ROUTES:
+            scratch = os.path.join(vlib.RUST_OUT, "sandbox", "c04")
+            os.makedirs(scratch, exist_ok=True)
+            for mode, key in (("none", "plain"), ("zod", "zod")):
+                payload = {"id": 0, "scratch": scratch, "mode": mode, "reuse_analyzer": route.endswith("analyzer"),
+                           "rounds": [{"files": render_files(st["state"]), "default_case": to_project(st["state"])["default_case"]}
+                                      for st in h["history"]]}
+                r = subprocess.run([vlib.harness_bin("c04"), "reuse"], input=json.dumps(payload) + "\n", stdout=subprocess.PIPE,
+                                   stderr=subprocess.DEVNULL, text=True, timeout=180, env=vlib.ENV)
+                lines = [l for l in r.stdout.splitlines() if l.startswith("{")]
+                got = json.loads(lines[-1]) if lines else {}
+                for i in range(len(steps)):
+                    rounds = got.get("rounds") or []
+                    steps[i][key] = rounds[i] if i < len(rounds) else {"error": "driver died: %s" % (got.get("panic") or r.returncode)}
+            return steps
         with vlib.Sandbox("c04h") as sb:
             src = sb.path("root/src-tauri/src")
             for mode, key in (("none", "plain"), ("zod", "zod")):
@@ -795,6 +887,22 @@ def history_cases(rng, thorough):
     return hists
 
 
+def reuse_cases(rng, thorough):
+    """2-3 rounds on one generator object; signatures or the parameter case differ between rounds (same file set)"""
+    hists = []
+    for pname, (x, y) in history_states().items():
+        for route in REUSE_ROUTES:
+            for seq in ("XY", "XYX", "YXY"):
+                hists.append({"route": route, "history": [{"state": json.loads(json.dumps(x if s_ == "X" else y)), "force": None} for s_ in seq]})
+    for _ in range(300 if thorough else 30):
+        pr = history_states(rng)
+        x, y = pr[rng.choice(["random", "random-project-case"])]
+        seq = rng.choice(["XY", "XYX", "XYY", "YX"])
+        hists.append({"route": rng.choice(REUSE_ROUTES),
+                      "history": [{"state": json.loads(json.dumps(x if s_ == "X" else y)), "force": None} for s_ in seq]})
+    return hists
+
+
 def load_witnesses():
     return [(e["id"], dict(e["witness"])) for e in vlib.load_known_findings("C04")]
 
@@ -877,13 +985,22 @@ def run(rep):
         "histories": len(hs), "runs": sum(len(h["history"]) for h in hs) * 2, "routes": HIST_ROUTES,
         "forced_runs": sum(1 for h in hs for s_ in h["history"] if s_["force"])}
     rep.add("run-histories", evaluate_histories(hs))
+    # the library API as long-lived objects: one generator (and analyzer) for several rounds
+    ru = reuse_cases(rng, thorough)
+    rep.extra.setdefault("distribution", {})["reused-objects"] = {"histories": len(ru), "rounds": sum(len(h["history"]) for h in ru) * 2,
+                                                                  "routes": REUSE_ROUTES}
+    rep.add("reused-objects", evaluate_histories(ru))
+    # parameter patterns
+    pm = pattern_matrix()
+    distribution(rep, "pattern-matrix", pm)
+    rep.add("pattern-matrix", evaluate(pm))
     # random, outside every class (where the theorems speak) and inside each class
     n = 40000 if thorough else 1500
     main = [random_case(rng) for _ in range(n)]
     distribution(rep, "random", main)
     rep.add("random", evaluate(main))
     nk = 400 if thorough else 40
-    inside = [random_case(rng, k) for k in range(3) for _ in range(nk)]
+    inside = [random_case(rng, k) for k in range(4) for _ in range(nk)]
     distribution(rep, "random-inside-classes", inside)
     rep.add("random-inside-classes", evaluate(inside))
     ncli = 3000 if thorough else 120
